@@ -230,7 +230,7 @@ def queries_are_pure(P: Program, R: Report, rule: str) -> None:
         if q.cls is None or q.name not in used or not any(k in q.cls.qname for k in (".data_model.",)):
             continue
         n += 1
-        eff = [(pa, w) for pa, k, w in E.effects_on(q, root) if k == "content"]
+        eff = [(pa, w) for pa, k, w in E.effects_on(q, root) if k == "content" and not (pa and pa[0].startswith("_") and not pa[0].startswith("__"))]
         label = f"{q.short}: a query the edits consult before they have validated changes nothing"
         if not eff:
             R.ok(rule, q, q.node, label, via="effect-analysis")
